@@ -63,7 +63,7 @@ class Alg:
         self.npool = pool or self.POOL
         self.pool_names = ["g%d" % i for i in range(self.npool)]
         self.pool_used = 0
-        names = self.pool_names + ["UNDEF"] + names  # atoms first (larger in the order)
+        names = self.pool_names + ["UNDEF", "DIVZERO"] + names  # atoms first (larger in the order)
         res = _ring(names, QQ, grevlex)
         self.R = res[0]
         self.gen = dict(zip(names, res[1:]))
@@ -82,6 +82,7 @@ class Alg:
         self.nonneg = []         # generator names known >= 0 (sqrt, abs)
         self.safe_obligations = []   # (what, poly) : poly must be != 0 / >= 0 etc.
         self.gen_desc = {}
+        self.div_by_zero = False
         self.sign = {}           # generator name -> 'pos' | 'nonneg' | 'neg' | 'nonpos'  (contract / axiom facts)
         self.angle_ranges = []   # (poly a, kind) kind in {'first_quadrant': a in [0, pi/2), 'principal': a in (-pi, pi)}
 
@@ -386,7 +387,12 @@ class Alg:
         d is factored; each irreducible factor gets (or reuses) one inverse generator."""
         d = self.nf(d)
         if d.is_zero:
-            raise EngineError("division by the zero polynomial")
+            # the denominator vanishes identically on this path: either the path is infeasible or the
+            # code divides by zero; the marker generator makes every dependent obligation fail, and the
+            # failure handler then decides which of the two it is
+            self.div_by_zero = True
+            self.safe_obligations.append(("denominator_nonzero", d))
+            return self.gen["DIVZERO"]
         if d.is_ground:
             return self.const(1 / self.const_value(d))
         key = d
@@ -439,6 +445,8 @@ class Alg:
         if kind == "atan2":
             # A-ATAN2: atan2(sin b, cos b) = b for b in (-pi, pi);  atan2(-sin b, cos b) = -b
             y, x = args
+            if y.is_zero and x.is_ground and self.const_value(x) > 0:
+                return self.R.zero          # atan2(0, c) = 0 for c > 0
             for (b, Sb, Cb) in self.trig_bases:
                 if not self._principal(b):
                     continue
@@ -554,7 +562,7 @@ class Alg:
         return False
 
     def poison_names(self):
-        return [n.name for n in self.path.nodes.values() if n.op == "poison"] + ["UNDEF"]
+        return [n.name for n in self.path.nodes.values() if n.op == "poison"] + ["UNDEF", "DIVZERO"]
 
     # ---- differentiation along a direction of the input variables
     def make_diff(self, direction):
@@ -563,6 +571,7 @@ class Alg:
         for name in self.var_names:
             dgen[name] = direction.get(name, self.R.zero)
         dgen["UNDEF"] = self.R.zero
+        dgen["DIVZERO"] = self.R.zero
         alg = self
 
         def dg(name):
